@@ -28,6 +28,7 @@ def run(ctx):
     ctx.call(N.pick_agreement, "3ps", "setup")
     ctx.call(N.pick_agreement, "3pc", "cleanup")
     ctx.call(GR.parsing_entry, "4")
+    ctx.call(GR.lazy_predicates, "4l")
     ctx.call(GR.validate_coverage, "4v")
     ctx.call(T.t_s1, "3x/T.S1")
     ctx.call(GR.name_forms, "5n")
